@@ -123,6 +123,9 @@ pub struct Exec {
     pub oplog_hash: u64,
     pub dead_end: bool,
     pub known: Vec<String>,
+    /// faults to arm right after the database has been created (C08); Some(vec![]) only counts calls
+    pub fault_plan: Option<Vec<crate::disk::Fault>>,
+    pub calls_counted: u64,
 }
 
 pub fn is_io_error_str(s: &str) -> bool {
@@ -157,6 +160,8 @@ impl Exec {
             oplog_hash: 0,
             dead_end: false,
             known: vec![],
+            fault_plan: None,
+            calls_counted: 0,
         }
     }
 
@@ -228,6 +233,7 @@ impl Exec {
         self.disk_stats.shrinks += s.stats.shrinks;
         self.disk_stats.grows += s.stats.grows;
         self.oplog_hash = crate::rng::mix(self.oplog_hash, s.hash.0);
+        self.calls_counted += s.call_index;
         let contract = std::mem::take(&mut s.contract);
         let monitor = std::mem::take(&mut s.monitor);
         let dead = s.dead;
@@ -895,6 +901,12 @@ impl Exec {
             if let Err(e) = self.open_image(vec![], plan.cfg.cache) {
                 self.viol("C01", "create", format!("creating the database failed: {e}"));
                 return;
+            }
+            if let Some(f) = self.fault_plan.clone() {
+                if !f.is_empty() {
+                    self.mode = Mode::Faulty;
+                }
+                self.disk.arm(f);
             }
         }
         for step in &plan.steps {
